@@ -88,6 +88,19 @@ namespace ip {
 		if (ec) throw boost::system::system_error(ec);
 	}
 
+	void tcp::acceptor::open(tcp protocol, boost::system::error_code& ec)
+	{
+		if (is_open()) close(ec);
+		socket::open(protocol, ec);
+	}
+
+	void tcp::acceptor::open(tcp protocol)
+	{
+		boost::system::error_code ec;
+		open(protocol, ec);
+		if (ec) throw boost::system::system_error(ec);
+	}
+
 	void tcp::acceptor::cancel(boost::system::error_code& ec)
 	{
 		ec.clear();
